@@ -64,6 +64,8 @@ class Tables:
                  fields=None, try_kind="result", structs=None, lettypes=None, fortypes=None, str_as_chars=False):
         self.str_as_chars = str_as_chars
         self.static_ctors = set()
+        self.effects = {}     # see Tr.effect()
+        self.try_into = {}    # error tag -> wrapper format applied by `?` (From conversion)
         self.self_type = self_type
         self.ctors = ctors or {}        # "Traversal::NotFound" -> "Traversal.NotFound"
         self.fns = fns or {}            # "Packed::bits_for" -> (lean fn, "pure" | "panic")
@@ -97,6 +99,8 @@ class Tr:
         self.n = 0
         self.notes = []
         self.may_panic = False
+        self.pending_ok = None
+        self.last_err = None
 
     def fresh(self, base="t"):
         self.n += 1
@@ -128,6 +132,8 @@ class Tr:
             t = self.tag_of(e[1])
             if t and t.startswith("list:"):
                 return t[5:]
+        if e[0] == "call" and e[1][0] == "path" and ("call", "::".join(e[1][1])) in self.tb.effects:
+            return self.tb.effects[("call", "::".join(e[1][1]))].get("ret")
         if e[0] == "match" and e[2]:
             return self.tag_of(e[2][0][2])
         if e[0] == "block" and e[2] is not None:
@@ -139,6 +145,15 @@ class Tr:
                 return spec["ret"]
             if spec and spec.get("kind") == "id":
                 return t
+        return None
+
+    def tag_err(self, e):
+        """error type tag of a `Result` expression (for the `From` conversion applied by `?`)"""
+        if e[0] == "mcall":
+            t = self.tag_of(e[1])
+            spec = self.tb.methods.get((t, e[2])) or self.tb.methods.get((None, e[2]))
+            if spec and "err" in spec:
+                return spec["err"]
         return None
 
     def atomize(self, term, k, base="t"):
@@ -157,6 +172,10 @@ class Tr:
             return lname(p[1])
         if k == "pnum":
             return str(p[1])
+        if k == "prange":
+            if p[2] - p[1] > 16:
+                raise Unsupported(f"{self.fname}: wide range pattern")
+            return " | ".join(str(i) for i in range(p[1], p[2] + 1))
         if k == "pstr":
             return '"' + p[1] + '"'
         if k == "pref":
@@ -328,12 +347,20 @@ class Tr:
         if kind == "assign":
             return self.assign(e, ctx, k)
         if kind == "try":
+            self.pending_ok = None
+            self.last_err = None
             def with_v(t):
                 v = self.fresh("v")
                 if self.tb.try_kind == "option":
                     return ("match", t, [([f"some {v}"], k(v)), (["none"], ctx.ret("none"))])
                 err = self.fresh("err")
-                return ("match", t, [([f".ok {v}"], k(v)), ([f".error {err}"], ctx.ret(f"(.error {err})"))])
+                errtag = self.last_err or self.tag_err(e[1])
+                wrap = self.tb.try_into.get(errtag, "{0}")
+                self.last_err = None
+                if self.pending_ok:
+                    var, self.pending_ok = self.pending_ok, None
+                    return ("match", t, [([f".ok {var}"], k("()")), ([f".error {err}"], ctx.ret(f"(.error {wrap.format(err)})"))])
+                return ("match", t, [([f".ok {v}"], k(v)), ([f".error {err}"], ctx.ret(f"(.error {wrap.format(err)})"))])
             return self.ex(e[1], ctx, with_v)
         if kind == "for":
             return self.for_(e, ctx, k)
@@ -389,11 +416,30 @@ class Tr:
             raise Unsupported(f"{self.fname}: expression must be simple here: {e!r}")
         return box[0]
 
+    def effect(self, key, e_args, recv, ctx, k):
+        """state-threading calls: `keys.next(&k)` rebinding `keys`, the callback `func(..)` whose `Ok` carries the new
+        closure state, child calls `T::traverse_by_key(keys, func)` returning `(result, func)`"""
+        spec = self.tb.effects[key]
+        def with_args(ts):
+            term = spec["fmt"].format(*[self.par(t) for t in ts])
+            if "pair" in spec:       # let (r, <var>) := term
+                r = self.fresh("r")
+                self.last_err = spec.get("err")
+                return ("let", f"({r}, {spec['pair']})", term, k(r))
+            if "ok_rebinds" in spec:
+                self.pending_ok = spec["ok_rebinds"]
+                self.last_err = spec.get("err")
+                return k(term)
+            raise Unsupported(f"{self.fname}: effect spec {key}")
+        return self.exs(e_args, ctx, with_args)
+
     def call(self, e, ctx, k):
         f = e[1]
         if f[0] != "path":
             raise Unsupported(f"{self.fname}: call of non-path")
         name = "::".join(f[1])
+        if ("call", name) in self.tb.effects:
+            return self.effect(("call", name), e[2], None, ctx, k)
         if name.startswith("Self::") and self.tb.self_type:
             name = self.tb.self_type + "::" + name[6:]
         args = e[2]
@@ -417,6 +463,8 @@ class Tr:
 
     def mcall(self, e, ctx, k):
         recv, name, args = e[1], e[2], e[3]
+        if recv[0] == "path" and len(recv[1]) == 1 and ("mcall", recv[1][0], name) in self.tb.effects:
+            return self.effect(("mcall", recv[1][0], name), args, recv, ctx, k)
         tag = self.tag_of(recv)
         spec = self.tb.methods.get((tag, name))
         if spec is None:
@@ -724,7 +772,7 @@ def contains(e, kind):
 
 # ------------------------------------------------------------------ whole functions
 
-def translate_fn(body, lean_name, sig, ret_type, tables, mode, mut_self=False, doc=""):
+def translate_fn(body, lean_name, sig, ret_type, tables, mode, mut_self=False, doc="", state_ret=None):
     """mode: 'pure' (plain value; translation must not contain a panic), 'panic' (returns P ret_type),
     'loopbody' (body of a `loop`: returns Ctl Self ret_type).  With mut_self the result carries the updated self."""
     tr = Tr(tables, lean_name, sig)
@@ -736,6 +784,13 @@ def translate_fn(body, lean_name, sig, ret_type, tables, mode, mut_self=False, d
                   cont=lambda: T(".next self"))
         d = tr.block(inner, ctx, lambda _t: T(".next self"))
         rt = f"Ctl {tables.structs['Self']} ({ret_type})"
+    elif mode == "panic" and state_ret is not None:
+        # the result carries the final value of a threaded state variable: (value, state)
+        svar, sty = state_ret
+        wrap = lambda t: T(f".val ({t}, {svar})")
+        ctx = Ctx(panic=lambda site: T(f'.panic "{site}"'), ret=wrap)
+        d = tr.block(body, ctx, wrap)
+        rt = f"P ({ret_type} × {sty})"
     elif mode == "panic":
         wrap = (lambda t: T(f".val (self, {t})")) if mut_self else (lambda t: T(f".val {tr.par(t)}"))
         ctx = Ctx(panic=lambda site: T(f'.panic "{site}"'), ret=wrap)
